@@ -53,7 +53,8 @@ Definition flags_eqb (a b: flags) : bool :=
 Inductive node :=
 | NLeaf (raw packed: pv)              (* any non-dataclass value (also None in an Optional[Inner] field) *)
 | NObj (cid: nat) (fs: list node)     (* instance of class cid with its field values in declaration order *)
-| NList (items: list node).           (* value of a List[<dataclass>] field *)
+| NList (items: list node)            (* value of a List[<dataclass>] field *)
+| NDict (items: list (string * node)). (* value of a Dict[str, <dataclass>] field *)
 
 Definition no_flags : flags := {| g_on := false; g_ba := false; g_dl := false; g_cx := false |}.
 
@@ -106,6 +107,17 @@ Section Table.
                              | _, _ => None end end) items with
         | Some l => Some (POpq (S (List.length items)), PList l)
         | None => None end
+    | NDict items =>
+        (* {key: value.__mashumaro_to_dict__(<flags>) for key, value in value.items()}: per element, same call *)
+        match (fix go (l: list (string * node)) {struct l} : option (list (string * pv)) :=
+                 match l with
+                 | [] => Some []
+                 | kx :: r => match kx with (k, x) =>
+                                match pack_h spec x members outer avail pd, go r with
+                                | Some v, Some t => Some ((k, snd v) :: t)
+                                | _, _ => None end end end) items with
+        | Some l => Some (POpq (S (List.length items)), PDict l)
+        | None => None end
     | NObj cid ch =>
         match nth_error ct cid, pick spec outer members cid with
         | Some c, Some fl =>
@@ -145,6 +157,9 @@ Section Table.
     | NList items =>
         (fix go (l: list node) {struct l} : bool :=
            match l with [] => true | x :: r => ok_h x members outer avail pd && go r end) items
+    | NDict items =>
+        (fix go (l: list (string * node)) {struct l} : bool :=
+           match l with [] => true | kx :: r => match kx with (_, x) => ok_h x members outer avail pd && go r end end) items
     | NObj cid ch =>
         match nth_error ct cid, pick true outer members cid, pick false outer members cid with
         | Some c, Some fl, Some fl' =>
